@@ -306,14 +306,15 @@ fn prose_extra(thorough: bool) -> ExtraLevel {
 
 /// "Start from non-initial states": the formatter's own outputs at narrow widths (its broken,
 /// multi-line layouts, which the one-line canonical templates never spell) as inputs, explored with
-/// the full configuration policy. Second generation of every canonical k <= 1 instance (and of the
-/// main contexts at k = 2 in the thorough tier) at widths 0 and 20 with indent units 2 and 4.
+/// the full configuration policy. Second generation of every canonical k <= 1 instance at widths 0
+/// and 20 with indent units 2 and 4.
 fn gen2_extra(m: &Model, thorough: bool) -> ExtraLevel {
     let subject = Real;
-    let mut sks = sweep::skeletons(m, &all_ctx(), &[0, 1], &[Size::Short, Size::AllMid]);
-    if thorough {
-        sks.extend(sweep::skeletons(m, &MAIN_CTX, &[2], &[Size::Short]));
-    }
+    // (the same set in both tiers: the k = 2 generation was tried in the thorough tier of C03 and
+    // only re-found class K6 46 times; it is left out until the thorough tiers of C01 and C04 have
+    // been run with it)
+    let _ = thorough;
+    let sks = sweep::skeletons(m, &all_ctx(), &[0, 1], &[Size::Short, Size::AllMid]);
     let mut inputs: Vec<(String, String)> = vec![];
     let mut seen = std::collections::HashSet::new();
     for sk in &sks {
